@@ -641,7 +641,7 @@ Qed.
 
 Lemma csv_row_safe r : safeo (csv_row false r).
 Proof.
-  unfold csv_row. destruct (is_empty (c_data r)); [apply safeo_ok|].
+  unfold csv_row. cbn [andb].
   apply bind_safe; [apply kinds_of_safe|]. intros [|k0 krest]; [apply safeo_err|].
   destruct (kind_is_complex k0 && is_empty_list krest); [apply safeo_err|].
   apply bind_safe; [|intro t; apply safeo_ok].
@@ -937,3 +937,13 @@ Proof.
     unfold nosemi in Hs, Hx. rewrite Hs. cbn [has_semi existsb].
     destruct d as [|d0 d]; [contradiction|]. cbn [opt or_empty]. rewrite Hx. reflexivity.
 Qed.
+
+(* a row without data: before 62b1571 the target columns were skipped (annotate() then failed
+   with NoTarget), now the target is decoded like for any other row *)
+Lemma csv_nodata_witness :
+  csv_row true (row "X" "" "s" "TextSelector" "r" "" "" "0" "5" "" "")
+    = Ok {| ab_id := Some (lit "X"); ab_data := []; ab_target := None |}
+  /\ csv_row false (row "X" "" "s" "TextSelector" "r" "" "" "0" "5" "" "")
+    = Ok {| ab_id := Some (lit "X"); ab_data := []; ab_target := Some (BText (lit "r") (CBegin 0) (CBegin 5)) |}
+  /\ csv_row false (row "X" "" "s" "MultiSelector" "r" "" "" "0" "5" "" "") = Err.
+Proof. vm_compute. repeat split. Qed.
